@@ -126,6 +126,17 @@ def run_scenario(scn, want_events=True, twin_fin=None):
         finally:
             if scn["mode"] == "pre":
                 model.pre_computed_distance = True
+    hist = list(H.derive_history(scn))
+    if scn.get("reload") and "reload" not in hist:
+        hist.append("reload")
+    if "refit" in hist:
+        try:
+            if scn["kind"] == "sup":
+                model.fit(Xtr.copy(), Ytr.copy(), (np.array(I_train) + (int(scn.get("id_offset", 0)) if scn["mode"] != "pre" else 0)) if passI else None)
+            else:
+                model.fit(Xtr.copy(), Ytr.copy(), Xu.copy(), (np.array(I_train) + (int(scn.get("id_offset", 0)) if scn["mode"] != "pre" else 0)) if passI else None)
+        except Exception as ex:
+            return None, ("exception", "%s: %s" % (type(ex).__name__, str(ex)[:200]))
     CTX.update(on=True, model=model, snaps=[])
     orig = model
     try:
@@ -140,14 +151,12 @@ def run_scenario(scn, want_events=True, twin_fin=None):
         finally:
             CTX["on"] = False
         orig = model
-        if scn.get("reload") and scn["mode"] in ("metric", "pre"):
-            # object history: the fitted model goes through save -> load into a freshly constructed object (default arguments,
-            # i.e. another metric) before it predicts
-            path = os.path.join(H.subdir("reload"), "m-%d.pkl" % os.getpid())
-            model.save(path)
-            model = type(orig)()
-            model.load(path)
-            os.remove(path)
+        for step in hist:
+            if step == "prepredict" and Q:
+                model.predict(Z[Q[::-1]].copy(), np.array(Q[::-1]) if passI else None)
+            else:
+                # save -> load into a freshly constructed object (default arguments, i.e. another metric), or a deep copy
+                model = H.apply_history_step(model, step)
         nodes = model.subgraph.nodes
         n = len(nodes)
         if n != nl + len(U):
